@@ -29,44 +29,57 @@ func wellFormedScore(s float64, lo, hi int) string {
 	return ""
 }
 
-func c11Scores[T comparable, P Object[T]](r *Report, im *Impl[T, P], a spec.Assignment, o *T, rating func(float64) (string, error), idx0 int, vals *Counter) {
+// c11One evaluates C11's predicate for scoring method i of object o; returns (key suffix, observation).
+func c11One[T comparable, P Object[T]](im *Impl[T, P], i int, o *T, rating func(float64) (string, error)) (key, obs string) {
+	sf := im.Scores[i]
+	var s float64
+	if p := Safely(func() { s = sf.F(o) }); p != nil {
+		return "panic", fmt.Sprint(p)
+	}
+	lo := 0
+	if im.Ver == spec.V2 && sf.Name == "EnvironmentalScore" {
+		lo = -1000 // exception stated by the property (pinned by C05)
+	}
+	if why := wellFormedScore(s, lo, 100); why != "" {
+		return "malformed", why
+	}
+	if rating != nil {
+		if rs, err := rating(s); err != nil || rs == "" {
+			return "rating-refuses", fmt.Sprintf("Rating(%v) = %q, %v", s, rs, err)
+		}
+	}
+	return "", ""
+}
+
+// iterCtx tells c11Scores how the object was reached (nil when it was not built by an Iterate path).
+type iterCtx struct {
+	dims []Dim
+	bg   spec.Assignment
+	idx  int
+}
+
+func c11Scores[T comparable, P Object[T]](r *Report, im *Impl[T, P], a spec.Assignment, o *T, rating func(float64) (string, error), idx0 int, vals *Counter, ctx *iterCtx) {
 	ver := im.Ver
 	for i, sf := range im.Scores {
 		if sf.Name == "Impact" || sf.Name == "Exploitability" {
 			continue // unrounded sub-scores by contract
 		}
-		var s float64
-		key, obs := "", ""
-		if p := Safely(func() { s = sf.F(o) }); p != nil {
-			key, obs = "panic", fmt.Sprint(p)
-		} else {
-			lo := 0
-			if ver == spec.V2 && sf.Name == "EnvironmentalScore" {
-				lo = -1000 // exception stated by the property (pinned by C05)
-			}
-			if why := wellFormedScore(s, lo, 100); why != "" {
-				key, obs = "malformed", why
-			} else if rating != nil {
-				if rs, err := rating(s); err != nil || rs == "" {
-					key, obs = "rating-refuses", fmt.Sprintf("Rating(%v) = %q, %v", s, rs, err)
-				}
-			}
-		}
+		key, obs := c11One(im, i, o, rating)
 		vals.Add(idx0, 1)
-		if key != "" {
-			ac := a.Clone()
-			idx := i
-			r.Violation(Case{Kind: "score-format", Key: "v" + ver.Name + "/" + sf.Name + "/" + key, Expected: "finite one-decimal score in range accepted by Rating", Observed: obs + " on " + P(o).Vector(),
-				Args: map[string]any{"version": ver.Name, "vector": ver.Full(a), "method": sf.Name}},
-				func() bool {
-					oo, _ := NewOS(im, NewReport("x", "quick", 0)).Build(ac)
-					var s2 float64
-					if p := Safely(func() { s2 = im.Scores[idx].F(&oo) }); p != nil {
-						return true
-					}
-					return wellFormedScore(s2, -1000, 100) != "" || key == "rating-refuses"
-				})
+		if key == "" {
+			continue
 		}
+		i := i
+		full := "v" + ver.Name + "/" + sf.Name + "/" + key
+		if ctx != nil {
+			iterViolation(r, im, ctx.dims, ctx.bg, 16, ctx.idx, a, "score-format", full, "finite one-decimal score in range accepted by Rating", obs+" on "+P(o).Vector(),
+				map[string]any{"method": sf.Name}, func(a spec.Assignment, o *T) string { k, _ := c11One(im, i, o, rating); return k })
+			continue
+		}
+		oc := *o
+		r.Violation(Case{Kind: "score-format", Key: full, Expected: "finite one-decimal score in range accepted by Rating", Observed: obs + " on " + P(o).Vector(),
+			Args: map[string]any{"version": ver.Name, "vector": ver.Full(a), "method": sf.Name}},
+			func() bool { oo := oc; k, _ := c11One(im, i, &oo, rating); return k != "" })
 	}
 }
 
@@ -81,17 +94,20 @@ func CheckC11(r *Report) {
 			r.Violation(Case{Kind: "score-format", Key: "v" + ver.Name + "/cannot-build", Expected: "object built by Set", Observed: why, Args: map[string]any{"version": ver.Name, "vector": ver.Full(a)}}, nil)
 		}
 	}
-	Iterate(I20, allDims(spec.V2), v2zero(), 16, func(idx int, a spec.Assignment, o *gocvss20.CVSS20) {
+	d20 := allDims(spec.V2)
+	Iterate(I20, d20, v2zero(), 16, func(idx int, a spec.Assignment, o *gocvss20.CVSS20) {
 		states.Add(idx, 1)
-		c11Scores(r, I20, a, o, nil, idx, &vals)
+		c11Scores(r, I20, a, o, nil, idx, &vals, &iterCtx{d20, v2zero(), idx})
 	}, bad(spec.V2), r.TooMany)
-	Iterate(I30, v3ClassDims(spec.V30), v3bg(spec.V30), 16, func(idx int, a spec.Assignment, o *gocvss30.CVSS30) {
+	d30 := v3ClassDims(spec.V30)
+	Iterate(I30, d30, v3bg(spec.V30), 16, func(idx int, a spec.Assignment, o *gocvss30.CVSS30) {
 		states.Add(idx, 1)
-		c11Scores(r, I30, a, o, gocvss30.Rating, idx, &vals)
+		c11Scores(r, I30, a, o, gocvss30.Rating, idx, &vals, &iterCtx{d30, v3bg(spec.V30), idx})
 	}, bad(spec.V30), r.TooMany)
-	Iterate(I31, v3ClassDims(spec.V31), v3bg(spec.V31), 16, func(idx int, a spec.Assignment, o *gocvss31.CVSS31) {
+	d31 := v3ClassDims(spec.V31)
+	Iterate(I31, d31, v3bg(spec.V31), 16, func(idx int, a spec.Assignment, o *gocvss31.CVSS31) {
 		states.Add(idx, 1)
-		c11Scores(r, I31, a, o, gocvss31.Rating, idx, &vals)
+		c11Scores(r, I31, a, o, gocvss31.Rating, idx, &vals, &iterCtx{d31, v3bg(spec.V31), idx})
 	}, bad(spec.V31), r.TooMany)
 	rots := []int{1}
 	if thorough {
@@ -101,13 +117,13 @@ func CheckC11(r *Report) {
 		sweepV3AllOverridden(r, I30, rot, func(a spec.Assignment, o *gocvss30.CVSS30) (string, string, string) {
 			idx := int(a[14])<<13 + int(a[15])<<14 + int(a[16])<<15 + int(a[19])<<17
 			states.Add(idx, 1)
-			c11Scores(r, I30, a, o, gocvss30.Rating, idx, &vals)
+			c11Scores(r, I30, a, o, gocvss30.Rating, idx, &vals, nil)
 			return "", "", ""
 		})
 		sweepV3AllOverridden(r, I31, rot, func(a spec.Assignment, o *gocvss31.CVSS31) (string, string, string) {
 			idx := int(a[14])<<13 + int(a[15])<<14 + int(a[16])<<15 + int(a[19])<<17
 			states.Add(idx, 1)
-			c11Scores(r, I31, a, o, gocvss31.Rating, idx, &vals)
+			c11Scores(r, I31, a, o, gocvss31.Rating, idx, &vals, nil)
 			return "", "", ""
 		})
 	}
@@ -199,7 +215,8 @@ func init() {
 		}
 		switch argStr(c, "version") {
 		case "2.0":
-			o, err := gocvss20.ParseVector(vec)
+			_, ob, err := objForReplay(I20, c)
+			o := &ob
 			if err != nil {
 				return "replay vector rejected"
 			}
@@ -212,7 +229,8 @@ func init() {
 			}
 			return chk(s, p, lo, nil)
 		case "3.0":
-			o, err := gocvss30.ParseVector(vec)
+			_, ob, err := objForReplay(I30, c)
+			o := &ob
 			if err != nil {
 				return "replay vector rejected"
 			}
@@ -221,7 +239,8 @@ func init() {
 			p := Safely(func() { s = I30.Scores[i].F(o) })
 			return chk(s, p, 0, gocvss30.Rating)
 		case "3.1":
-			o, err := gocvss31.ParseVector(vec)
+			_, ob, err := objForReplay(I31, c)
+			o := &ob
 			if err != nil {
 				return "replay vector rejected"
 			}
